@@ -152,7 +152,8 @@ func (compound *compoundPoints) GetPoint(tick uint64) (*storage.Point, error) {
 		return nil, err
 	}
 	if dbPoint != nil {
-		if dbPoint.EndHash != endBlock.Hash {
+		// only finished points are stored: one for a tick which is not finished was stored on a branch which has been rolled back
+		if dbPoint.EndHash != endBlock.Hash || !compound.IsFinished(tick) {
 			// invalidate DB & cache
 			err := compound.db.DeletePointByHeight(compound.prefix, tick)
 			if err != nil {
@@ -246,7 +247,8 @@ func (period *periodPoints) GetPoint(tick uint64) (*storage.Point, error) {
 		return nil, err
 	}
 	if dbPoint != nil {
-		if dbPoint.EndHash != endBlock.Hash {
+		// only finished points are stored: one for a tick which is not finished was stored on a branch which has been rolled back
+		if dbPoint.EndHash != endBlock.Hash || !period.IsFinished(tick) {
 			// invalidate DB & cache
 			err := period.db.DeletePointByHeight(storage.PrefixPeriodPoint, tick)
 			if err != nil {
